@@ -15,7 +15,7 @@ Section Hist.
   Definition hinv (h : hstate) : Prop :=
     NoDup (h_ghost h) /\
     match h_lock h with
-    | LValid L => 1 <= L <= u32max /\ forall g, In g (h_ghost h) -> g < L
+    | LValid L => L <= u32max /\ forall g, In g (h_ghost h) -> g < L
     | LAbsent => h_ghost h = []
     | LCorrupt => False
     end.
@@ -45,9 +45,10 @@ Section Hist.
       split; assumption.
     - unfold hinv. cbn [h_ghost h_lock]. rewrite Hk.
       assert (Hsb : 1 <= s <= u32max /\ forall g, In g (h_ghost h) -> g < s).
-      { destruct Hs as [s Hc|rs s miss Hc Hp Hr Hm].
+      { destruct Hs as [L0 Hc|rs s miss Hc Hp Hr Hm].
         - unfold cached_id in Hc. rewrite Huc in Hc. destruct lk as [|L|]; try discriminate.
-          inversion Hc; subst. exact Hl.
+          inversion Hc; subst. cbn in Hl. destruct Hl as [Hl2 Hl3].
+          split; [lia|]. intros g Hg. specialize (Hl3 g Hg). lia.
         - assert (Hlk : lk = LAbsent).
           { unfold cached_id in Hc. rewrite Huc in Hc. destruct lk as [|L|]; [reflexivity|discriminate|contradiction]. }
           rewrite Hlk in Hl. cbn in Hl. rewrite Hl. split; [|intros g Hg; destruct Hg].
